@@ -1371,7 +1371,7 @@ static void decode_case(Src &s, Case &c) {
   if (cfg.stratum >= 0) { kind = (cfg.stratum / N_CLASSES) % K_COUNT; nclass = cfg.stratum % N_CLASSES; }
   if (cfg.thorough && nclass == 5 && s.below(4) == 0) nclass = 6;
   c.p.kind = kind;
-  bool table_kind = kind == K_HHTFC;  // F04/F07: explored where it works
+  bool table_kind = kind == K_HHTFC || kind == K_HTFC;  // F06/F07: explored where they work
   c.S = gen_strings(s, nclass, cfg.thorough, c.gi, table_kind);
   bool clamp = cfg.prop == "C12" || cfg.prop == "C07";
   bool memalloc = cfg.prop == "C07";
